@@ -15,6 +15,7 @@ package sio
 import (
 	"context"
 	"encoding/json"
+	"fmt"
 
 	"github.com/Comcast/sheens/core"
 	"github.com/Comcast/sheens/crew"
@@ -55,6 +56,10 @@ func AsCrewOp(msg interface{}) (*CrewOp, error) {
 func (c *Crew) DoOp(ctx context.Context, op *CrewOp) error {
 	for mid, m := range op.Update {
 		c.Logf("Crew.Do Update %s", mid)
+		if m == nil {
+			// {"update":{"mid":null}}
+			return fmt.Errorf("no machine given for %s", mid)
+		}
 		if err := c.SetMachine(ctx, mid, m.SpecSource, m.State); err != nil {
 			return err
 		}
